@@ -53,7 +53,8 @@ UNITS = {
 # natively the real GF tables and the real libz are used
 NATIVE_SUBST = {"galois_stubbed": "galois_real", "gf16_ref": None, "zcrc32": None}
 NATIVE_RENAMES = ["-Ddlopen=env_dlopen", "-Ddlclose=env_dlclose", "-Ddlerror=env_dlerror", "-Ddlsym=env_dlsym",
-                  "-Dopenlog=env_openlog", "-Dcloselog=env_closelog", "-Dsyslog=env_syslog", "-Dgetenv=env_getenv"]
+                  "-Dopenlog=env_openlog", "-Dcloselog=env_closelog", "-Dsyslog=env_syslog", "-Dgetenv=env_getenv",
+                  "-Dpthread_rwlock_wrlock=env_rwlock_wrlock", "-Dpthread_rwlock_rdlock=env_rwlock_rdlock", "-Dpthread_rwlock_unlock=env_rwlock_unlock"]
 
 FRONT = ["erasurecode", "helpers", "preproc", "postproc", "crc32alt", "be_null", "be_xor", "be_isal_common",
          "be_isal_vand", "be_isal_cauchy", "be_rsvand", "galois_stubbed", "gf16_ref", "rsvand", "xor_code",
